@@ -90,8 +90,24 @@ func c07Gen(rng *verifsim.RNG, idx int, tier string) *Plan {
 		// several transmissions in flight at once, all slow and all failing:
 		// only the first error is ever heard by the scheduler
 		p.Class = "faults-overlapping"
-		p.Faults = append(p.Faults, Fault{Seam: "write", Key: []string{"uc", ""}[rng.Intn(2)], N: rng.Range(2, 8), Count: rng.Range(2, 4),
-			Err: []string{"ENOBUFS", "ENETDOWN", "EINVAL"}[rng.Intn(3)], Lat: int64(rng.Dur(50*time.Millisecond, 900*time.Millisecond))})
+		f := Fault{Seam: "write", Key: []string{"uc", ""}[rng.Intn(2)], Skip: rng.Range(1, 7), Count: rng.Range(2, 4),
+			Err: []string{"ENOBUFS", "ENETDOWN", "EINVAL"}[rng.Intn(3)], Lat: int64(rng.Dur(50*time.Millisecond, 900*time.Millisecond))}
+		if rng.Bool(0.6) {
+			// make sure they overlap: a handful of hosts soliciting within a few
+			// milliseconds, every answer slow (longer than the 500 ms the answers
+			// are spread over) and failing; and somebody who asks again later
+			t0 := int64(rng.Dur(500*time.Millisecond, horizon/2))
+			f.Skip, f.From, f.Key = 0, t0, "uc"
+			f.Lat = int64(rng.Dur(600*time.Millisecond, 1500*time.Millisecond))
+			for i, k := 0, rng.Range(2, 5); i < k; i++ {
+				p.Actions = append(p.Actions, rsAction(t0+int64(i)*nsMs+jitter(rng), hostAddr(2*i)))
+			}
+			p.Actions = append(p.Actions, rsAction(t0+int64(rng.Dur(4*time.Second, 6*time.Second)), hostAddr(1)))
+			if int64(horizon) < t0+8*nsSec {
+				horizon = time.Duration(t0 + 8*nsSec)
+			}
+		}
+		p.Faults = append(p.Faults, f)
 	case 2:
 		p.Class = "flap"
 		p.Actions = append(p.Actions, Action{At: int64(rng.Dur(time.Second, horizon)) + jitter(rng), Kind: "link", If: "eth0", Oper: "down"})
@@ -159,6 +175,21 @@ func c07Iface(info *runInfo, res *verifsim.Result, h *history, spec *IfaceSpec) 
 		for _, w := range g.writes {
 			if w.err != "" && w.exitT < end {
 				end = w.exitT
+			}
+		}
+		// ... and ends it for good: the connection is given up (to be
+		// re-established), however many transmissions failed at once. Whoever
+		// solicits afterwards is not served by a connection that is kept but dead.
+		if g.endSeq == 0 {
+			lim := h.endT
+			if stopT != 0 && stopT < lim {
+				lim = stopT
+			}
+			for _, w := range g.writes {
+				if w.err != "" && w.exitT != 0 && w.exitT+nsSec < lim {
+					res.Violate("C07.once", "stuck", "%s gen %d: the transmission to %s failed at %s (%s) but the connection was neither given up nor replaced by %s: solicitations arriving on it are never answered", ifn, g.gen, w.dst, ms(w.exitT), w.err, ms(lim))
+					break
+				}
 			}
 		}
 		type sol struct {
